@@ -139,4 +139,10 @@ def branch_context(root: ast.AST, target: ast.AST) -> List[Tuple[ast.AST, bool]]
                 return True
         return False
     rec(root, [])
-    return out
+    # `if not c:` is the other arm of `if c:` - report the positive test
+    norm_out = []
+    for (t, br) in out:
+        while isinstance(t, ast.UnaryOp) and isinstance(t.op, ast.Not):
+            t, br = t.operand, not br
+        norm_out.append((t, br))
+    return norm_out
